@@ -101,8 +101,34 @@ def _judge(chk, traces, label):
     return chk.judge("DrawSetTrace", "DrawSetTrace.cfg", traces, label=label, key_fn=key)
 
 
+def apalache_inductive(chk):
+    """optional stretch (DESIGN.md C20): the representation invariant is inductive (unbounded histories), by Apalache"""
+    import os, shutil, subprocess, time
+    exe = shutil.which("apalache-mc")
+    d = os.path.join(tlc.SPEC_DIR, "apalache")
+    if not exe or not os.path.exists(os.path.join(d, "DrawSetInd.tla")):
+        chk.extra["apalache_inductive_invariant"] = "not run (apalache-mc not available)"
+        return
+    res = {}
+    for name, args in (("step", ["--init=IndInit", "--inv=IndInv", "--length=1"]), ("base", ["--init=Init", "--inv=IndInv", "--length=0"])):
+        t0 = time.time()
+        try:
+            p = subprocess.run([exe, "check"] + args + ["--out-dir=" + os.path.join(chk.scratch, "apa"), "DrawSetInd.tla"], cwd=d,
+                               stdout=subprocess.PIPE, stderr=subprocess.STDOUT, text=True, timeout=240)
+            ok = "The outcome is: NoError" in p.stdout
+            res[name] = "NoError" if ok else "NOT PROVED (rc=%s)" % p.returncode
+        except subprocess.TimeoutExpired:
+            res[name] = "timeout"
+        res[name + "_s"] = round(time.time() - t0, 1)
+    chk.extra["apalache_inductive_invariant"] = res
+    chk.log("Apalache inductive invariant of the DrawSet model:", res)
+    if any(str(v).startswith("NOT PROVED") for v in res.values()):
+        raise tlc.MachineryError("Apalache refuted the inductive invariant of the DrawSet MODEL: %r" % res)
+
+
 def run(chk):
     thorough = chk.tier == "thorough"
+    apalache_inductive(chk)
     # ---- MC: all histories (the model is finite: no depth bound needed)
     chk.mc("DrawSet", "MC_DrawSet.cfg", required=["Add", "Remove", "RemoveAbsent", "DrawAny", "Observe"])
     if thorough:
